@@ -16,6 +16,7 @@ const INS_GENERAL_AUTHENTICATE = byte(0x86)
 const INS_INTERNAL_AUTHENTICATE = byte(0x88)
 const INS_SELECT = byte(0xA4)
 const INS_READ_BINARY = byte(0xB0)
+const INS_READ_BINARY_ODD = byte(0xB1)
 
 // default to 65,535 maximum file (TLV) size
 // - as we always read the first 4 bytes (so max 2 byte length)
@@ -272,6 +273,12 @@ func (nfc *NfcSession) SelectAid(aid []byte) (selected bool, err error) {
 func (nfc *NfcSession) ReadBinaryFromOffset(offset, length int) ([]byte, error) {
 	slog.Debug("ReadBinaryFromOffset", "offset", offset, "length", length)
 
+	if offset > 0x7FFF {
+		// even-INS READ BINARY only carries a 15-bit offset (bit 8 of P1 selects short-EF-identifier
+		// addressing, see 9303p10 3.6.3.2), so larger offsets need the odd-INS variant
+		return nfc.readBinaryOddInsFromOffset(offset, length)
+	}
+
 	var capdu *CApdu = NewCApdu(0x00, INS_READ_BINARY, byte(offset/256), byte(offset%256), nil, length)
 
 	rapdu, err := nfc.DoAPDU(capdu, fmt.Sprintf("Read Binary (offset:%d, length:%d)", offset, length))
@@ -289,6 +296,44 @@ func (nfc *NfcSession) ReadBinaryFromOffset(offset, length int) ([]byte, error) 
 	}
 
 	return rapdu.Data, nil
+}
+
+// READ BINARY with odd INS (B1): the offset is passed in DO'54' and the data is returned in DO'53'
+// NB Le covers the whole DO'53' (header + data) and is kept within maxLe, so (like the even-INS
+// variant) fewer data bytes than 'length' may be returned
+func (nfc *NfcSession) readBinaryOddInsFromOffset(offset, length int) ([]byte, error) {
+	offsetBytes := []byte{byte(offset >> 8), byte(offset)}
+	if offset > 0xFFFF {
+		offsetBytes = append([]byte{byte(offset >> 16)}, offsetBytes...)
+	}
+
+	le := length + 1 + len(tlv.TlvLength(length).Encode())
+	if le > nfc.maxLe && length <= nfc.maxLe {
+		le = max(nfc.maxLe, 4)
+	}
+
+	capdu := NewCApdu(0x00, INS_READ_BINARY_ODD, 0x00, 0x00, tlv.NewTlvSimpleNode(0x54, offsetBytes).Encode(), le)
+
+	rapdu, err := nfc.DoAPDU(capdu, fmt.Sprintf("Read Binary (odd INS) (offset:%d, length:%d)", offset, length))
+	if err != nil {
+		return nil, fmt.Errorf("[readBinaryOddInsFromOffset] DoAPDU (offset:%d,length:%d) error: %w", offset, length, err)
+	}
+
+	if !rapdu.IsSuccess() {
+		return nil, fmt.Errorf("[readBinaryOddInsFromOffset] Invalid status (offset:%d,length:%d):%X", offset, length, rapdu.Status)
+	}
+
+	data, err := tlv.UnwrapTag(0x53, rapdu.Data)
+	if err != nil {
+		return nil, fmt.Errorf("[readBinaryOddInsFromOffset] DO'53' missing in response (offset:%d,length:%d): %w", offset, length, err)
+	}
+
+	if len(data) > length {
+		// more data than requested, possible abuse
+		return nil, fmt.Errorf("[readBinaryOddInsFromOffset] More data than requested (act:%1d, req:%1d)", len(data), length)
+	}
+
+	return data, nil
 }
 
 // returns: file contents OR nil if file not found
